@@ -61,7 +61,8 @@ def _templates(et, dim, tier, beam=False):
     return out + (["gmsh_L"] if th else [])
 
 
-LAWS_QUICK = ["iso", "trans", "ortho", "aniso", "trans@rot", "ortho@rot", "aniso@rot", "aniso_voigt"]
+# "@aboutx": material frame turned about its own first axis, which stays the global x (axis_1 = e_x, axis_2 != e_y)
+LAWS_QUICK = ["iso", "trans", "ortho", "aniso", "trans@rot", "ortho@rot", "aniso@rot", "aniso_voigt", "ortho@aboutx"]
 LAWS_THOROUGH = LAWS_QUICK + ["trans@oop", "ortho@oop", "aniso_voigt@rot"]
 
 
@@ -75,6 +76,7 @@ def _factors(problem, et, tier):
             "numbering": ["identity", "reversal", "seeded"],
             "law": LAWS_THOROUGH if th else LAWS_QUICK,
             "bcform": ["function", "array", "constant"],
+            "amp": [1.0, 1e-13],  # amplitude of the prescribed linear field (the problem is linear: nothing depends on it)
         }
     if problem in THERMAL:
         dim = THERMAL[problem]
@@ -83,6 +85,7 @@ def _factors(problem, et, tier):
             "map": ["generic", "identity", "reflection"] + (["embed"] if dim < 3 else []) + (["generic2"] if th else []),
             "numbering": ["identity", "reversal", "seeded"],
             "bcform": ["function", "array", "constant"],
+            "amp": [1.0, 1e-13],
         }
     timo, dim = BEAM[problem]
     maps = {1: ["identity", "generic"], 2: ["identity", "generic", "alongy", "reflection"],
@@ -306,7 +309,7 @@ def _linfun(g, c):
 
 def _key(case):
     k = {"problem": case["problem"], "elemType": _etname(case["elemType"])}
-    for f in ("mesh", "map", "numbering", "law", "bcform", "yaxis"):
+    for f in ("mesh", "map", "numbering", "law", "bcform", "yaxis", "amp"):
         if f in case:
             k[f] = case[f] if not str(case[f]).startswith("p:") else "perm"
     return k
@@ -342,6 +345,8 @@ def _law(case, dim, ps):
         Rm = Z.rot3([0, 0, 1], r.uniform(0.3, 1.2)) if dim == 2 else Z.rot3(r.normal(size=3), r.uniform(0.3, 2.8))
     elif axes == "oop":
         Rm = R.frame([0, 0, 1], [1, 0, 0])
+    elif axes == "aboutx":
+        Rm = Z.rot3([1, 0, 0], 0.7)
     else:
         raise KeyError(axes)
     a1, a2 = Rm[:, 0].copy(), Rm[:, 1].copy()
@@ -425,10 +430,10 @@ def _run_elastic(case):
     for f in range(dim * dim + dim):
         G, c = np.zeros((dim, dim)), np.zeros(dim)
         if f < dim * dim:
-            G[f // dim, f % dim] = 1.0
+            G[f // dim, f % dim] = float(case.get("amp", 1.0))
             field = f"G{f // dim}{f % dim}"
         else:
-            c[f - dim * dim] = 1.0
+            c[f - dim * dim] = float(case.get("amp", 1.0))
             field = f"c{f - dim * dim}"
         Uex = X[:, :dim] @ G.T + c
         G3 = np.zeros((dim, 3))
@@ -494,10 +499,10 @@ def _run_thermal(case):
     for f in range(nco + 1):
         g, c = np.zeros(3), 0.0
         if f < nco:
-            g[f] = 1.0
+            g[f] = float(case.get("amp", 1.0))
             field = f"g{f}"
         else:
-            c = 1.0
+            c = float(case.get("amp", 1.0))
             field = "c"
         Tex = (X @ g + c)[:, None]
         simu.Bc_Init()
